@@ -31,51 +31,59 @@ Theorem verify_rrsig_sound : forall (honest : N -> Prop) (zone_signed : signed -
 Proof. exact verify_rrsig_sound_lemma. Qed.
 Print Assumptions verify_rrsig_sound.
 
-(* chain_sound — FULL STATEMENT: a DNSKEY response accepted by verifyDNSSEC against an authentic DS
-   set contains only the zone's own keys ([chain_sound_statement verify_dnssec]).
-   REFUTED for the code as it stands (finding dnskey-rrset-signed-by-non-ds-key): *)
-Theorem chain_sound_refuted : ~ chain_sound_statement verify_dnssec.
-Proof. exact chain_sound_refuted_lemma. Qed.
-Print Assumptions chain_sound_refuted.
+(* chain_sound: a DNSKEY answer accepted by verifyDNSSEC against an authentic DS set contains only the
+   zone's own keys — every key count, every tag assignment.  (True of the code since d62d15b; the validator
+   as it was before is kept in Proofs_chain.v with the witness on which it failed, see the Example below.) *)
+Theorem chain_sound : chain_sound_statement verify_dnssec.
+Proof. exact chain_sound_lemma. Qed.
+Print Assumptions chain_sound.
 
-(* ... and proved for the repaired validator (props/C01/fix.patch: the signer's DNSKEY answer must verify
-   under a DS-matched key).  For the DNSKEY answer itself: every key of the accepted RRset is the zone's own *)
-Theorem chain_sound_fixed_link : forall (honest : N -> Prop) (zone_signed : signed -> Prop) E signer resp parentDS,
+Theorem chain_sound_link : forall (honest : N -> Prop) (zone_signed : signed -> Prop) E signer resp parentDS,
   root_own signer resp = false -> own_query signer resp = true ->
   (forall d k, In d parentDS -> ds_binds d k -> honest (k_mat k)) ->
   unforgeable honest zone_signed (m_ans resp) -> publishes_own_keys honest zone_signed (m_ans resp) ->
-  verify_dnssec_fixed E signer resp parentDS = (true, None) ->
+  verify_dnssec E signer resp parentDS = (true, None) ->
   forall k, In k (keys_of_msg signer resp) -> honest (k_mat k).
 Proof. exact keys_fixed_honest. Qed.
-Print Assumptions chain_sound_fixed_link.
+Print Assumptions chain_sound_link.
 
-(* ... and for any response: accept ⇒ every validated RRset was signed by the zone (keys fetched through
-   a sub-query are the store's, which the theorem above keeps authentic) *)
-Theorem verify_dnssec_fixed_sound : forall (honest : N -> Prop) (zone_signed : signed -> Prop) E signer resp parentDS,
+(* verifyDNSSEC: accept ⇒ every validated RRset was signed by the zone.  Keys fetched through a sub-query are
+   the store's; [chain_sound] is what keeps those authentic (they entered through the DNSKEY-answer path). *)
+Theorem verify_dnssec_sound : forall (honest : N -> Prop) (zone_signed : signed -> Prop) E signer resp parentDS,
   root_own signer resp = false ->
   (forall d k, In d parentDS -> ds_binds d k -> honest (k_mat k)) ->
   (if own_query signer resp
    then unforgeable honest zone_signed (m_ans resp) /\ publishes_own_keys honest zone_signed (m_ans resp)
    else forall m, e_key E signer = LMsg m -> forall k, In k (keys_of_msg signer m) -> honest (k_mat k)) ->
   unforgeable honest zone_signed (m_ans resp ++ m_ns resp) ->
-  verify_dnssec_fixed E signer resp parentDS = (true, None) ->
+  verify_dnssec E signer resp parentDS = (true, None) ->
   let dn := dnames_of signer (m_ans resp) (m_ns resp) in
   (forall r, In r (m_ans resp) -> is_sig r = false -> is_synth dn r = false ->
      in_zone (r_owner r) signer = true /\
      exists set, vouched_set zone_signed (e_now E) signer (m_ans resp) (m_ns resp) dn r set) /\
   (forall r, In r (m_ns resp) -> passes signer dn true r = true ->
      exists set, vouched_set zone_signed (e_now E) signer (m_ans resp) (m_ns resp) dn r set).
-Proof. exact verify_dnssec_fixed_sound_lemma. Qed.
-Print Assumptions verify_dnssec_fixed_sound.
+Proof. exact verify_dnssec_sound_lemma. Qed.
+Print Assumptions verify_dnssec_sound.
 
-Theorem fixed_rejects_the_witness : verify_dnssec_fixed E0 zn forged_keys ds_parent = (false, Some EMissingDNSKEY).
-Proof. exact fixed_rejects_witness. Qed.
-Print Assumptions fixed_rejects_the_witness.
+(* the root's own DNSKEY answer is validated with the configured anchors only *)
+Theorem verify_root_keys_sound : forall (honest : N -> Prop) (zone_signed : signed -> Prop) E resp,
+  (forall k, In k (e_anchors E) -> honest (k_mat k)) ->
+  unforgeable honest zone_signed (m_ans resp ++ m_ns resp) ->
+  verify_root_keys E resp = (true, None) ->
+  let dn := dnames_of [] (m_ans resp) (m_ns resp) in
+  (forall r, In r (m_ans resp) -> is_sig r = false -> is_synth dn r = false ->
+     in_zone (r_owner r) [] = true /\
+     exists set, vouched_set zone_signed (e_now E) [] (m_ans resp) (m_ns resp) dn r set) /\
+  (forall r, In r (m_ns resp) -> passes [] dn true r = true ->
+     exists set, vouched_set zone_signed (e_now E) [] (m_ans resp) (m_ns resp) dn r set).
+Proof. exact verify_root_keys_sound. Qed.
+Print Assumptions verify_root_keys_sound.
 
-(* induction on the referral depth (repaired validator): starting from honest keys at the top, each hop
-   validates the child's DS answer with the parent's keys and the child's DNSKEY answer against that DS set;
-   the keys reached at any depth are that zone's own — any depth, any key counts, any key tags *)
-Theorem chain_sound_fixed : forall (honest : name -> N -> Prop) (zsigned : name -> signed -> Prop) E,
+(* induction on the referral depth: starting from honest keys at the top, each hop validates the child's DS
+   answer with the parent's keys and the child's DNSKEY answer against that DS set; the keys reached at any
+   depth are that zone's own — any depth, any key counts, any key tags *)
+Theorem chain_sound_depth : forall (honest : name -> N -> Prop) (zsigned : name -> signed -> Prop) E,
   (forall z l, unforgeable (honest z) (zsigned z) l) ->
   (forall z l, publishes_own_keys (honest z) (zsigned z) l) ->
   (forall z c a lb o e i t sg ow cl rds, zsigned z (Signed c a lb o e i t sg ow cl rds) -> c = T_DS ->
@@ -83,7 +91,7 @@ Theorem chain_sound_fixed : forall (honest : name -> N -> Prop) (zsigned : name 
   forall hops z keys, keys_honest honest z keys -> chain_ok E z keys hops ->
   let '(c, kc) := last_keys z keys hops in keys_honest honest c kc.
 Proof. exact chain_sound_fixed_lemma. Qed.
-Print Assumptions chain_sound_fixed.
+Print Assumptions chain_sound_depth.
 
 Theorem anchor_ds_authentic : forall (honest : name -> N -> Prop) E ds0,
   (forall k, In k (e_anchors E) -> honest [] (k_mat k)) ->
@@ -91,17 +99,44 @@ Theorem anchor_ds_authentic : forall (honest : name -> N -> Prop) E ds0,
 Proof. exact root_ds_authentic. Qed.
 Print Assumptions anchor_ds_authentic.
 
-(* answer_ad_sound — FULL STATEMENT: AD=1 ⇒ the signer's keys were authenticated by a DS set that is
-   the inherited one, the anchor's, or comes from a sub-query answer that was itself authenticated
-   ([answer_ad_sound_statement]).  REFUTED for the code as it stands (finding unsigned-ds-trust-link): *)
-Theorem answer_ad_sound_refuted : ~ answer_ad_sound_statement.
-Proof. exact answer_ad_sound_refuted_lemma. Qed.
-Print Assumptions answer_ad_sound_refuted.
+(* answer_ad_sound: AD=1 ⇒ an ancestor signer exists and every Answer record that is not a signature or a
+   correct DNAME synthesis lies in that signer's zone inside an RRset the signer signed in exactly that
+   composition and validity window.  Hypotheses: the Dolev-Yao world (nobody forges under a zone's material;
+   zones sign DNSKEY RRsets of their own keys), honest anchors, the store's DNSKEY answers went through
+   verifyDNSSEC ([chain_sound]) — and ONE hypothesis the code does not establish: the DS set that findDS
+   hands back for the signer is authentic.  That is exactly finding unsigned-ds-trust-link (DESIGN §6 F9):
+   when signer <> owner of the DS set in hand, findDS takes the DS RRset out of a sub-query answer without
+   asking whether that answer was authenticated; [answer_ad_sound_needs_ds_provenance_refuted] below shows the
+   hypothesis cannot be dropped. *)
+Theorem answer_ad_sound : forall (honest : name -> N -> Prop) (zsigned : name -> signed -> Prop) E qname qtype cd resp0 pds zone m,
+  let resp := bailiwick zone resp0 in
+  (forall z l, unforgeable (honest z) (zsigned z) l) ->
+  (forall z l, publishes_own_keys (honest z) (zsigned z) l) ->
+  (forall k, In k (e_anchors E) -> honest [] (k_mat k)) ->
+  (forall z km, e_key E z = LMsg km -> forall k, In k (keys_of_msg z km) -> honest z (k_mat k)) ->
+  (forall s ds, find_ds E (Some s) qname pds false = Ok ds ->
+     forall d k, In d ds -> ds_binds d k -> honest s (k_mat k)) ->
+  dname_target resp = None ->
+  validate_answer E qname qtype cd resp0 pds zone = Accept m -> m_ad resp0 = false -> m_ad m = true ->
+  exists s, in_zone qname s = true /\
+    let dn := dnames_of s (m_ans resp) (m_ns resp) in
+    forall r, In r (m_ans resp) -> is_sig r = false -> is_synth dn r = false ->
+      in_zone (r_owner r) s = true /\
+      exists set, vouched_set (zsigned s) (e_now E) s (m_ans resp) (m_ns resp) dn r set.
+Proof. exact answer_ad_sound_lemma. Qed.
+Print Assumptions answer_ad_sound.
 
-(* what does hold: AD=1 ⇒ not CD, an anchor exists, some RRSIG names an ancestor signer, a non-empty DS
+(* ... without that hypothesis — "AD=1 ⇒ the DS set that authenticated the signer's keys is the inherited one,
+   the anchor's, or comes from a sub-query answer that was itself authenticated" ([answer_ad_sound_statement]) —
+   the statement is FALSE of the code (finding unsigned-ds-trust-link, still open): *)
+Theorem answer_ad_sound_needs_ds_provenance_refuted : ~ answer_ad_sound_statement.
+Proof. exact answer_ad_sound_refuted_lemma. Qed.
+Print Assumptions answer_ad_sound_needs_ds_provenance_refuted.
+
+(* unconditionally: AD=1 ⇒ not CD, an anchor exists, some RRSIG names an ancestor signer, a non-empty DS
    set was found for it, verifyDNSSEC accepted the response under it, and every wildcard expansion
-   carries an authenticated next-closer denial.  (Missing for the full statement: provenance of that
-   DS set — F9 — and authenticity of every key verifyDNSSEC used — F10.) *)
+   carries an authenticated next-closer denial.  (Missing for the unconditional full statement: provenance
+   of that DS set — F9.) *)
 Theorem answer_ad_partial : forall E qname qtype cd resp0 pds zone m,
   let resp := bailiwick zone resp0 in
   dname_target resp = None ->
@@ -189,3 +224,10 @@ Example accept_example :
   let s := mk_sig 1 15 2 300 2000 1000 77 z (SigBy 5 (Signed 1 15 2 300 2000 1000 77 z o 1 [9])) 1 in
   verify_rrsig (fun _ => 0) 1500%Z z [k] [a; mk_rr o T_RRSIG 1 10 (RdSig s)] [] = (true, None).
 Proof. vm_compute. reflexivity. Qed.
+
+(* for the record: the validator as it was before d62d15b fails chain_sound on the computed witness
+   (reverting that commit must make the check report it) *)
+Example before_d62d15b_any_key_could_sign_the_dnskey_rrset : ~ chain_sound_statement verify_dnssec_before_d62d15b.
+Proof. exact old_variant_refuted. Qed.
+Example current_code_rejects_that_witness : verify_dnssec E0 zn forged_keys ds_parent = (false, Some EMissingDNSKEY).
+Proof. exact current_rejects_witness. Qed.
